@@ -1,7 +1,7 @@
 (* One entry point for the OCaml runner: op name and byte-string arguments
    in, (result bytes, tag text) out.  All structure is decoded here, in Coq. *)
 From Coq Require Import NArith ZArith List Bool String.
-From GJ Require Import Base.Bytes Base.Show Model.Int Model.StrEnc Model.StrDec Model.Compact Model.Iface Model.Path Model.KeyBitmap Spec.Json Gen.Resets Model.Mem Base.TypeAddrBase Gen.TypeAddr Model.TypeCache Model.Stream Model.StreamInst.
+From GJ Require Import Base.Bytes Base.Show Model.Int Model.StrEnc Model.StrDec Model.Compact Model.Iface Model.Path Model.KeyBitmap Spec.Json Gen.Resets Model.Mem Base.TypeAddrBase Gen.TypeAddr Model.TypeCache Model.Stream Model.StreamInst Model.Enc.
 Import ListNotations.
 Open Scope N_scope.
 Open Scope string_scope.
@@ -124,5 +124,11 @@ Definition dispatch (op : list N) (args : list (list N)) : list N * list N :=
      | Value _ BReject _ => [82]
      | ReaderError _ => str "reader-error"
      | OutOfFuel _ => str "fuel"
+     end, [])
+  else if list_eqb op (str "c01.enc") then
+    (* arg0: a value in the wire format of Model/Enc.v *)
+    (match parse_jv (S (List.length (arg 0 args))) (arg 0 args) with
+     | Some (v, []) => marshal v
+     | _ => str "unparsed"
      end, [])
   else (str "no-model", []).
